@@ -16,7 +16,7 @@ from ..core import Ctx, ExtractError
 
 ID = "C05"
 LEVEL = "proof"
-ENGINES = ["lean-model", "pyextract", "purediff"]
+ENGINES = ["lean-model", "pyextract", "purediff", "kopfsim"]
 LEVEL_TEXT = ("Lean theorems (all inputs of the decision table, all handler kinds) about a model that is regenerated from the AST and re-proved equal on every run; the real _detect_causes and get_handlers are additionally enumerated exhaustively against the model and an independent oracle.")
 TIE = "T (AST → Lean, re-proved equal to the model) + D exhaustive over the decision table"
 THEOREMS = [
@@ -213,6 +213,7 @@ def make_body(settings, marked: bool, blocked: bool, old_absent: bool, diff: boo
 def run(ctx: Ctx) -> None:
     import asyncio
     asyncio.run(_run(ctx))
+    closed_loop(ctx)
 
 
 async def _run(ctx: Ctx) -> None:
@@ -318,6 +319,80 @@ async def _run(ctx: Ctx) -> None:
         ctx.compare("C05 decision", impl, model, inp)
     ctx.exhaustive = True
     ctx.traces = len(requests) + len(greqs)
+
+
+def _essence(body: dict) -> dict:
+    """Independent reading of the essence for default settings: everything but status, system metadata and
+    kopf's own annotations (used only to tell "essential difference" in closed-loop histories)."""
+    out = {k: v for k, v in body.items() if k not in ("status", "metadata", "apiVersion", "kind")}
+    meta = body.get("metadata", {})
+    m = {}
+    if meta.get("labels"):
+        m["labels"] = meta["labels"]
+    ann = {k: v for k, v in (meta.get("annotations") or {}).items()
+           if not k.startswith("kopf.zalando.org/") and k != "kubectl.kubernetes.io/last-applied-configuration"}
+    if ann:
+        m["annotations"] = ann
+    if m:
+        out["metadata"] = m
+    return out
+
+
+def closed_loop(ctx: Ctx) -> None:
+    """Every cycle of whole-operator histories: the cause kopf computed vs. the property's precedence list
+    evaluated on independently observed facts (event type, deletion mark, own finalizer, stored last-handled
+    state, essential difference, first sight = seen in the start-up listing and no handling cycle ended yet
+    for this object in this process)."""
+    import json as _json
+    from ..sim import pool
+    from . import c02, c14
+    n = ctx.budget(60, 1500)
+    scenarios = [c14.gen_scenario(ctx.rng, 31_000_000 + ctx.seed * 100000 + i) for i in range(n)]
+    scenarios += [c02.gen_supersede(ctx.rng, 32_000_000 + ctx.seed * 100000 + i) for i in range(n // 2)]
+    scenarios += [d.get("scenario", d) for _, d in __import__("harness.core", fromlist=["load_corpus"]).load_corpus("C05")]
+    for sc, res in zip(scenarios, pool.run_many(scenarios, wall=40.0)):
+        if "trace" not in res or res["trace"].get("sim_error"):
+            raise RuntimeError(f"simulation failed: {str(res)[:1500]}")
+        tr = res["trace"]
+        ctx.traces += 1
+        first_by_listing: dict[tuple, bool] = {}
+        ended: set[tuple] = set()
+        for cyc in tr["cycles"]:
+            key = (cyc["inc"], cyc["uid"])
+            first_by_listing.setdefault(key, cyc["event_type"] is None)
+            cause = cyc.get("cause")
+            if cause is None or cyc.get("error"):
+                continue
+            meta = cyc["body"].get("metadata", {})
+            marked = bool(meta.get("deletionTimestamp"))
+            blocked = "kopf.zalando.org/KopfFinalizerMarker" in (meta.get("finalizers") or [])
+            raw = (meta.get("annotations") or {}).get("kopf.zalando.org/last-handled-configuration")
+            old_absent = raw is None
+            try:
+                diff = (not old_absent) and _json.loads(raw) != _essence(cyc["body"])
+            except ValueError:
+                continue
+            initial = first_by_listing[key] and key not in ended
+            want = oracle_reason(cyc["event_type"] == "DELETED", marked, blocked, old_absent, diff, initial)
+            got = cause["reason"]
+            ctx.case(key={"loop": [cyc["event_type"] is None, marked, blocked, old_absent, diff, initial, got]}, nontrivial=True)
+            ctx.count("closed_loop_reason", got)
+            if got != want:
+                ctx.oracle_fail(f"closed loop: event classified as {got}, the property's precedence gives {want} "
+                                f"(first sight={initial}, essential difference={diff})",
+                                {"scenario": sc, "cycle": cyc["i"]},
+                                {"site": "processing._detect_causes", "shape": "closed-loop cause", "want": want, "got": got})
+            if cause["initial"] and not initial and got != "create":
+                ctx.oracle_fail("closed loop: the cause carries first-sight although the object was seen and a handling cycle "
+                                "has ended for it in this process (resume handlers would be mixed in)",
+                                {"scenario": sc, "cycle": cyc["i"]},
+                                {"site": "processing._detect_causes", "shape": "stale first-sight flag"})
+            p = cyc.get("pcc")
+            if p and p["reason"] in REASONS[:4] and "P_after" in p and p.get("outcomes") is not None or (p and not p["selected"] and p["reason"] in REASONS[:4]):
+                fin = all(bool((p["P"].get(h) and (p["P"][h]["success"] or p["P"][h]["failure"])) or
+                               ((p.get("outcomes") or {}).get(h) or {}).get("final")) for h in p["selected"])
+                if fin:
+                    ended.add(key)
 
 
 def search(ctx: Ctx, broken: list) -> None:
